@@ -62,6 +62,14 @@ def gen_package(r, purelib, name):
                     continue
                 ir = irgen.rand_ir(r, nparams=r.randint(1, 3), type_kinds=("int", "float", "str", "bool", "optional"),
                                    default_kinds=("absent", "int", "float", "str", "bool"), with_return=False, name=cname)
+                rk = __import__("random").Random(r.random())
+                if rk.random() < 0.3:
+                    # an attribute the SQL emitters take for the primary key (by its name), nullable a good half of the time
+                    key = rk.choice(("account_id", "owner_name", "id_code", "id"))
+                    if key not in ir["params"]:
+                        ir["params"][key] = {"typ": rk.choice(("Optional[int]", "Optional[str]", "int")),
+                                             "doc": irgen.rand_doc(rk, stop=False)}
+                        ir["params"].move_to_end(key, last=rk.random() < 0.5)
                 body.append(hops.emit(ir, "class")[1])
                 body.append("")
                 syms.append(cname)
